@@ -65,6 +65,11 @@ def c14():
     scripts += ["\n".join(H.random_history(_seed_of(chk, i), 200)) for i in range(nrand)]
     # isolation: after every create/destroy step every live instance still round-trips (C14)
     scripts += ["\n".join(_isolation_history(_seed_of(chk, 5000 + i))) for i in range(60 if thorough else 12)]
+    # the same kinds of histories with the calls made from three threads in turn (strictly sequential): "any sequence of
+    # calls" does not say from which thread; per-thread caches of lookups, thread-affine state
+    scripts += ["\n".join(sc) for sc in _dead_descriptor_across_threads()]
+    scripts += ["\n".join(_threaded(H.random_history(_seed_of(chk, 7000 + i), 200), i)) for i in range(nrand // 2)]
+    scripts += ["\n".join(_threaded(_isolation_history(_seed_of(chk, 8000 + i)), i)) for i in range(20 if thorough else 6)]
     v, files = _run_hist(chk, scripts, "C14", ["C14", "C13 create", "C02", "C13/C01", "C13/C03", "fault"])
     # the same wrap and collision histories on the repository's own compiler and optimisation level (gcc -O2): the
     # counter's wrap is signed overflow in C, what it does is the compiler's choice (D13)
@@ -121,6 +126,42 @@ def _wrap_collision_histories():
             for s_ in [9] + list(range(1, len(live) + 1)) + [10]:
                 sc.append("destroy s%d" % s_)
                 sc.append("probe")
+            out.append(sc)
+    return out
+
+
+THREADABLE = ("create", "create_null", "destroy", "encode", "enc_cleanup", "decode", "recon", "dec_cleanup", "needed", "meta",
+              "finv", "vstripe", "size", "probe", "avail")
+
+
+def _threaded(lines, seed):
+    """The same history with its calls made from three different threads, strictly one after the other."""
+    import random
+    r = random.Random(seed)
+    out = []
+    for ln in lines:
+        c = ln.split()[0] if ln.split() else ""
+        out.append((r.choice(["", "t1 ", "t2 ", "t1 ", "t2 ", "t3 "]) + ln) if c in THREADABLE else ln)
+    return out
+
+
+def _dead_descriptor_across_threads():
+    """Thread A creates and uses an instance (its last lookup is that descriptor), thread B destroys it, then A, B and C
+    try every entry point on the dead descriptor (must be refused), then a new create may reissue it."""
+    out = []
+    for (be, k, m, hd, w) in [(BE_RS, 4, 2, 2, 16), (BE_XOR, 3, 3, 3, 32), (BE_ISAL_VAND, 4, 2, 2, 8), (BE_RS, 2, 1, 1, 16)]:
+        n = k + m
+        idx = " ".join(map(str, range(1, n)))
+        for (a, b) in (("t1", "t2"), ("t2", "t1"), ("t1", ""), ("", "t2")):
+            A = (a + " ") if a else ""
+            B = (b + " ") if b else ""
+            sc = ["reset", A + "create 1 %d %d %d %d %d 2" % (be, k, m, hd, w), "create 2 %d %d %d %d %d 1" % (be, k, m, hd, w),
+                  A + "encode s1 1 100 5 0 0", A + "size s1 100",
+                  B + "enc_cleanup s1 1 0", B + "destroy s1", "probe"]
+            for who in (A, B, "t3 "):
+                sc += [who + "size s1 64", who + "encode s1 3 64 7 0 0", who + "needed s1 0 1 0 0", who + "destroy s1", who + "finv s1 2 0 0"]
+            sc += [A + "encode s2 2 100 6 0 0", A + "decode s2 2 1 0 -100 0 0 %d %s" % (n - 1, idx), A + "dec_cleanup s2 1 0",
+                   B + "enc_cleanup s2 2 0", "probe", A + "create 3 %d %d %d %d %d 1" % (be, k, m, hd, w), B + "destroy s2", "t3 destroy s3", "probe"]
             out.append(sc)
     return out
 
@@ -189,6 +230,20 @@ def c16():
     _collect(chk, vs, ["C16", "fault"])
     cs = vs.counts or [0] * 12
     chk.parts.update({"sweep_decode_events_with_ledger_rules": cs[1], "sweep_reconstruct_events_with_ledger_rules": cs[5]})
+    # error paths reached only through particular HEADERS (bad magic / CRC, versions, re-sealed field edits incl. an
+    # original length that reads as a negative int, opposite byte order): metadata query, validation, decode and
+    # reconstruct (destination above and below the mutated fragment, aligned and unaligned survivors) on each, ledger
+    # compared before / after
+    from .checks_wire import hdr_cmd, wire_configs
+    hc = []
+    for ci, (be, k, m, hd) in enumerate(wire_configs(thorough)):
+        if be == BE_NULL:
+            continue
+        hc.append(hdr_cmd(be, k, m, hd, 1 + ci % 2, 40 + 7 * ci, _seed_of(chk, 700 + ci), 2 | 8 | 16 | 32, 24 if thorough else 8))
+    fh, eh, rh = run_sweeps("asan", hc, "C16-hdr")
+    vh = validate("TraceWire", fh, max_lines=1500)
+    _collect(chk, vh, ["C16", "fault"])
+    chk.parts["header_events_with_ledger_rule"] = (vh.counts or [0] * 14)[4] if vh.counts else vh.events
     _join(m1)
     c = v.counts or [0] * 16
     chk.cov["distinct_nontrivial"] = c[6] + c[3] + c[5] + cs[1] + cs[5]
